@@ -952,7 +952,7 @@ impl Shard {
                 }
             } else if !got.is_empty() {
                 self.rep.violate(
-                    format!("C20:not-upgraded-request-entered-handler:{}", ex.what),
+                    format!("C20:{}", ex.what),
                     json!({"uid": uid, "events": got.iter().map(|e| e.json()).collect::<Vec<_>>(),
                            "case": ex.witness}),
                 );
@@ -1293,6 +1293,33 @@ impl Shard {
         }
     }
 
+    /// minimal handshake with the given Connection / Upgrade lines on a fresh
+    /// connection; returns the status (diagnostics for witnesses only)
+    fn probe(&mut self, conn_lines: &[Vec<u8>], upg_lines: &[Vec<u8>]) -> Option<u16> {
+        let addr = self.srv.as_ref()?.addr;
+        let mut conn = Conn::connect(addr).ok()?;
+        let uid = next_uid();
+        let mut req = b"GET /ws HTTP/1.1\r\nHost: vmon.test\r\n".to_vec();
+        req.extend_from_slice(format!("x-vmon-uid: {uid}\r\n").as_bytes());
+        for l in conn_lines {
+            req.extend_from_slice(b"Connection: ");
+            req.extend_from_slice(l);
+            req.extend_from_slice(b"\r\n");
+        }
+        for l in upg_lines {
+            req.extend_from_slice(b"Upgrade: ");
+            req.extend_from_slice(l);
+            req.extend_from_slice(b"\r\n");
+        }
+        req.extend_from_slice(
+            b"Sec-WebSocket-Version: 13\r\nSec-WebSocket-Key: dGhlIHNhbXBsZSBub25jZQ==\r\n\r\n",
+        );
+        conn.send(&req).ok()?;
+        let st = conn.read_response_within(false, self.wd).ok()?.status;
+        self.rep.count("attribution_probes", 1);
+        Some(st)
+    }
+
     /// A handshake that must be (or may be) accepted, then its traffic.
     fn run_accept(
         &mut self,
@@ -1314,6 +1341,7 @@ impl Shard {
             ),
             _ => (0, None, 0),
         };
+        let (conn_lines_w, upg_lines_w) = (conn_lines.clone(), upg_lines.clone());
         let built = build(
             case, &mut rng, "GET", Some(conn_lines), Some(upg_lines),
             Some("13"), Some(&case.key), first, take, bye,
@@ -1413,24 +1441,46 @@ impl Shard {
             self.rep.count("handshakes_refused", 1);
             self.expect.insert(built.uid, Expect {
                 accepted: false, enter_s: String::new(), xor: 0,
-                what: format!("answered-{}", resp.status), witness: w.clone(),
+                what: format!("request-answered-{}-entered-handler", resp.status),
+                witness: w.clone(),
             });
             if may_refuse {
                 self.rep.count("unconstrained_refused", 1);
                 return;
             }
+            // attribute the refusal: the same Connection lines with a plain
+            // Upgrade header, and the other way round
+            let mut attribution = json!(null);
             let sig = match exotic {
                 Some(c) => format!("C20:valid-connection-header-spelling-refused:{c}"),
-                None if conn_sp != Sp::Plain || upg_sp != Sp::Plain => format!(
-                    "C20:valid-connection-header-spelling-refused:connection-{}+upgrade-{}",
-                    conn_sp.tag(), upg_sp.tag()
-                ),
+                None if conn_sp != Sp::Plain || upg_sp != Sp::Plain => {
+                    let plain_u = vec![b"websocket".to_vec()];
+                    let plain_c = vec![b"Upgrade".to_vec()];
+                    let pc = self.probe(&conn_lines_w, &plain_u);
+                    let pu = self.probe(&plain_c, &upg_lines_w);
+                    let pp = self.probe(&plain_c, &plain_u);
+                    attribution = json!({"status_with_plain_upgrade_header": pc,
+                                         "status_with_plain_connection_header": pu,
+                                         "status_with_both_plain": pp});
+                    let class = match (pp, pc, pu) {
+                        (Some(101), Some(c), _) if c != 101 => format!("connection-{}", conn_sp.tag()),
+                        (Some(101), _, Some(u)) if u != 101 => format!("upgrade-{}", upg_sp.tag()),
+                        (Some(101), Some(101), Some(101)) => format!(
+                            "connection-{}+upgrade-{}", conn_sp.tag(), upg_sp.tag()),
+                        _ => String::new(),
+                    };
+                    if class.is_empty() {
+                        "C20:complete-handshake-refused".to_string()
+                    } else {
+                        format!("C20:valid-connection-header-spelling-refused:{class}")
+                    }
+                }
                 None => "C20:complete-handshake-refused".to_string(),
             };
             self.rep.violate(
                 sig,
                 json!({"case": w, "status": resp.status, "headers": hdrs(&resp),
-                       "body": esc(&resp.body)}),
+                       "body": esc(&resp.body), "attribution": attribution}),
             );
             return;
         }
@@ -1515,7 +1565,8 @@ impl Shard {
         }
         self.expect.insert(built.uid, Expect {
             accepted: false, enter_s: String::new(), xor: 0,
-            what: subset.clone(), witness: w.clone(),
+            what: format!("incomplete-handshake-entered-handler:{subset}"),
+            witness: w.clone(),
         });
         let resp = match conn.read_response_within(false, self.wd) {
             Ok(r) => r,
